@@ -39,7 +39,7 @@ def vmAbortBody (rec : FUid → M Unit) (f : FUid) (scores : List Score) (deacti
 
 /-- the deactivation block of `CoreVM.abortFlow` / `finishFlow`, continuing with `k` -/
 def vmDeact (tail : String) (rec : FUid → M Unit) (f : FUid) (deactivate : Bool) (k : M Unit) : M Unit := do
-    if deactivate && (← isReferenceActivated f) then
+    if (← deactivatesRef deactivate f) then
       modInstX f fun x => { x with activated := x.activated - 1 }
       let x ← getInstX f
       if x.activated = 0 then
